@@ -19,6 +19,7 @@ class Macro:
         self.early_return = False
         self.label = False
         self.posmark = False
+        self.call_first = False  # the body begins with its first nested call (no op of its own before it)
         self.arg_plan: list[list[str]] = []  # per call: argument texts
 
 
@@ -33,15 +34,16 @@ class Lib:
         """Text of macro m; `variant` changes only the opcode tags (used for shadowing worlds / edits)."""
         t = f"t_{m.name}_{variant}"
         lines = [f"macro {m.name}({', '.join(m.params)}) {{"]
-        lines.append(f"    {t}_0({', '.join(m.params)});")
-        if m.posmark:
+        if not (m.call_first and m.callees):
+            lines.append(f"    {t}_0({', '.join(m.params)});")
+        if m.posmark and not (m.call_first and m.callees):
             lines.append(f"    {t}_p(Position<'pm_{m.name}', 3, 4.5>);")
-        if m.early_return and m.params:
+        if m.early_return and m.params and not (m.call_first and m.callees):
             lines.append(f"    if ({m.params[0]} == 1) {{")
             lines.append(f"        {t}_r();")
             lines.append("        return;")
             lines.append("    }")
-        if m.label:
+        if m.label and not (m.call_first and m.callees):
             lines.append(f"    @inner_{m.name};")
             lines.append(f"    {t}_l();")
             lines.append(f"    if ($LOOP_{m.name} < 3) {{ jump @inner_{m.name}; }}")
@@ -147,6 +149,7 @@ def gen_lib(rng: random.Random, shape: str | None = None, n: int | None = None) 
         m.early_return = rng.random() < 0.3
         m.label = rng.random() < 0.15
         m.posmark = rng.random() < 0.2
+        m.call_first = rng.random() < 0.3
         lib.macros[nm] = m
     for m in lib.macros.values():
         m.arg_plan = [_args(rng, len(lib.macros[c].params) + (1 if rng.random() < 0.1 else 0), m.params) for c in m.callees]
